@@ -14,6 +14,7 @@ use crate::tape::{mix64, LogHash, Tape};
 use smoltcp::socket::udp;
 
 struct Dg {
+    src: IpAddr,
     payload: Vec<u8>,
     delivered: u32,
     /// complete sets of fragments handed to the node
@@ -31,7 +32,11 @@ fn run_interleaved(tape: &mut Tape, props: Props, trace_on: bool, slots: usize) 
     s.bind(7000).unwrap();
     let h = node.sockets.add(s);
     let v = IpAddr::V4([10, 0, 0, 1]);
-    let on = props.has("C12");
+    // under C09 the same runs judge what the socket is handed (never merged, never misattributed, never twice);
+    // the must-deliver claims belong to C12 alone
+    let on12 = props.has("C12");
+    let on = on12 || props.has("C09");
+    let pid: &'static str = if on12 { "C12" } else { "C09" };
     let mut stats = Stats::default();
     let mut hash = LogHash::new();
     let mut trace: Vec<String> = vec![];
@@ -42,7 +47,10 @@ fn run_interleaved(tape: &mut Tape, props: Props, trace_on: bool, slots: usize) 
     let mut serial = 0u16;
     'outer: for _ in 0..rounds {
         let n = 2 + tape.draw((slots.min(3) - 1) as u64) as usize;
-        let mut dgs: Vec<(Vec<u8>, Vec<Vec<u8>>, u16)> = vec![];
+        let mut dgs: Vec<(Vec<u8>, Vec<Vec<u8>>, u16, IpAddr)> = vec![];
+        // different senders may use the same identification at the same time (the reassembly key includes the
+        // source address); one sender never does
+        let mut shared_by: Vec<IpAddr> = vec![];
         for _ in 0..n {
             serial += 1;
             let src = IpAddr::V4([10, 0, 0, 2 + (tape.draw(2) as u8)]);
@@ -50,20 +58,34 @@ fn run_interleaved(tape: &mut Tape, props: Props, trace_on: bool, slots: usize) 
             let key = tape.draw(1 << 30);
             let payload: Vec<u8> = (0..len).map(|j| (mix64(key, j as u64 / 8) >> ((j % 8) * 8)) as u8).collect();
             let sport = 4000 + serial;
-            let l4 = enc_udp(&src, &v, sport, 7000, &payload);
+            let mut l4 = enc_udp(&src, &v, sport, 7000, &payload);
+            if tape.draw(3) == 0 {
+                // no UDP checksum (legal over IPv4): nothing but the reassembly itself keeps datagrams apart
+                l4[6] = 0;
+                l4[7] = 0;
+                stats.inc("reasm.udp-without-checksum");
+            }
+            let share = tape.draw(3) == 0 && !shared_by.contains(&src);
+            let ident = if share {
+                shared_by.push(src);
+                stats.inc("reasm.identification-shared-between-senders");
+                0x5fff
+            } else {
+                0x5000 + serial
+            };
             let fsz = 8 * tape.range(2, 2 + (l4.len() as u64 / 24).min(40)) as usize;
             let mut frags = vec![];
             let mut off = 0;
             while off < l4.len() {
                 let end = (off + fsz).min(l4.len());
-                let o = V4Opts { ident: 0x5000 + serial, df: false, mf: end < l4.len(), frag_off: off, tos: 0 };
+                let o = V4Opts { ident, df: false, mf: end < l4.len(), frag_off: off, tos: 0 };
                 frags.push(enc_ipv4(src.v4(), v.v4(), P_UDP, 64, &o, &l4[off..end]));
                 off = end;
             }
             if tape.draw(3) == 0 {
                 frags.reverse();
             }
-            dgs.push((payload, frags, sport));
+            dgs.push((payload, frags, sport, src));
         }
         stats.add("reasm.datagrams-sent", n as u64);
         stats.inc("reasm.interleaved-rounds");
@@ -103,10 +125,16 @@ fn run_interleaved(tape: &mut Tape, props: Props, trace_on: bool, slots: usize) 
                 let Some((data, meta)) = got else { break };
                 stats.inc("reasm.delivered");
                 match (0..n).find(|&j| dgs[j].2 == meta.endpoint.port && dgs[j].0 == data) {
-                    Some(j) => delivered[j] += 1,
+                    Some(j) => {
+                        delivered[j] += 1;
+                        if on && from_smol(&meta.endpoint.addr) != dgs[j].3 {
+                            result = Err(viol(pid, "reassembly", format!("{}.rx/reassembled-datagram-attributed-to-another-sender", pid), format!("interleaved arrival: the datagram from {} port {} was delivered as coming from {}", dgs[j].3, dgs[j].2, meta.endpoint.addr)));
+                            break 'outer;
+                        }
+                    }
                     None => {
                         if on {
-                            result = Err(viol("C12", "reassembly", "C12.rx/reassembled-datagram-is-none-of-the-datagrams-sent", format!("interleaved arrival: the socket received {} octets from port {} that equal none of the datagrams in flight", data.len(), meta.endpoint.port)));
+                            result = Err(viol(pid, "reassembly", format!("{}.rx/reassembled-datagram-is-none-of-the-datagrams-sent", pid), format!("interleaved arrival: the socket received {} octets from port {} that equal none of the datagrams in flight", data.len(), meta.endpoint.port)));
                             break 'outer;
                         }
                     }
@@ -115,11 +143,12 @@ fn run_interleaved(tape: &mut Tape, props: Props, trace_on: bool, slots: usize) 
         }
         stats.add("reasm.must-deliver-claims", n as u64);
         if on {
-            if let Some(j) = (0..n).find(|&j| delivered[j] != 1) {
+            // (more than once is a violation of C09 and C12 alike; not at all only of C12)
+            if let Some(j) = (0..n).find(|&j| if on12 { delivered[j] != 1 } else { delivered[j] > 1 }) {
                 result = Err(viol(
-                    "C12",
+                    pid,
                     "reassembly",
-                    "C12.must-deliver/interleaved-datagrams",
+                    format!("{}.must-deliver/interleaved-datagrams", pid),
                     format!("{} datagrams arrived interleaved ({} reassembly slots), each complete, without duplicates and with its own fragments in order or reversed; the one from port {} ({} octets, {} fragments) was delivered {} times", n, slots, dgs[j].2, dgs[j].0.len(), dgs[j].1.len(), delivered[j]),
                 ));
                 break 'outer;
@@ -147,7 +176,11 @@ pub fn run(tape: &mut Tape, props: Props, thorough: bool, trace_on: bool) -> Out
     s.bind(7000).unwrap();
     let h = node.sockets.add(s);
     let v = IpAddr::V4([10, 0, 0, 1]);
-    let on = props.has("C12");
+    // under C09 the same runs judge what the socket is handed (never merged, never misattributed, never twice);
+    // the must-deliver claims belong to C12 alone
+    let on12 = props.has("C12");
+    let on = on12 || props.has("C09");
+    let pid: &'static str = if on12 { "C12" } else { "C09" };
     let mut stats = Stats::default();
     let mut hash = LogHash::new();
     let mut trace: Vec<String> = vec![];
@@ -159,6 +192,7 @@ pub fn run(tape: &mut Tape, props: Props, thorough: bool, trace_on: bool) -> Out
     // conservative mirror of the single reassembly slot: busy (possibly) until this instant
     let mut slot_busy_until: i64 = 0;
     let n_dg = tape.range(2, if thorough { 14 } else { 7 });
+    let mut shared_by: Vec<IpAddr> = vec![];
     let mut result: Result<(), Violation> = Ok(());
     'outer: for k in 0..n_dg {
         let src = IpAddr::V4([10, 0, 0, 2 + (tape.draw(2) as u8)]);
@@ -170,9 +204,24 @@ pub fn run(tape: &mut Tape, props: Props, thorough: bool, trace_on: bool) -> Out
         };
         let key = tape.draw(1 << 30);
         let payload: Vec<u8> = (0..len).map(|j| (mix64(key, j as u64 / 8) >> ((j % 8) * 8)) as u8).collect();
-        let l4 = enc_udp(&src, &v, 4000 + k as u16, 7000, &payload);
+        let mut l4 = enc_udp(&src, &v, 4000 + k as u16, 7000, &payload);
+        if tape.draw(3) == 0 {
+            // no UDP checksum (legal over IPv4): nothing but the reassembly itself keeps datagrams apart
+            l4[6] = 0;
+            l4[7] = 0;
+            stats.inc("reasm.udp-without-checksum");
+        }
         let fsz = 8 * tape.range(1, 1 + (l4.len() as u64 / 16).min(60)) as usize;
-        let ident = 0x4000 + k as u16 * 3 + tape.draw(2) as u16;
+        // different senders may use the same identification (the reassembly key includes the source address);
+        // one sender does not reuse it within a run
+        let share = tape.draw(3) == 0 && !shared_by.contains(&src);
+        let ident = if share {
+            shared_by.push(src);
+            stats.inc("reasm.identification-shared-between-senders");
+            0x4abc
+        } else {
+            0x4000 + k as u16 * 3 + tape.draw(2) as u16
+        };
         let mut frags: Vec<(usize, usize, Vec<u8>)> = vec![];
         let mut off = 0;
         while off < l4.len() {
@@ -227,7 +276,7 @@ pub fn run(tape: &mut Tape, props: Props, thorough: bool, trace_on: bool) -> Out
             port_to_dg.push(None);
         }
         port_to_dg[k as usize] = Some(di);
-        dgs.push(Dg { payload: payload.clone(), delivered: 0, complete_arrivals: 0, must: false });
+        dgs.push(Dg { src, payload: payload.clone(), delivered: 0, complete_arrivals: 0, must: false });
         for &i in &plan {
             // gaps between fragments: mostly small, sometimes across the reassembly timeout
             now += match tape.draw(16) {
@@ -295,15 +344,19 @@ pub fn run(tape: &mut Tape, props: Props, thorough: bool, trace_on: bool) -> Out
                 match m {
                     Some(j) => {
                         dgs[j].delivered += 1;
+                        if on && from_smol(&meta.endpoint.addr) != dgs[j].src {
+                            result = Err(viol(pid, "reassembly", format!("{}.rx/reassembled-datagram-attributed-to-another-sender", pid), format!("datagram #{} from {} was delivered as coming from {}", j, dgs[j].src, meta.endpoint.addr)));
+                            break 'outer;
+                        }
                         let allowed = if j == di { completes } else { dgs[j].complete_arrivals };
                         if on && dgs[j].delivered > allowed {
-                            result = Err(viol("C12", "reassembly", "C12.rx/delivered-more-often-than-completely-received", format!("datagram #{} ({} octets) was delivered {} times although only {} complete set(s) of its fragments arrived", j, data.len(), dgs[j].delivered, allowed)));
+                            result = Err(viol(pid, "reassembly", format!("{}.rx/delivered-more-often-than-completely-received", pid), format!("datagram #{} ({} octets) was delivered {} times although only {} complete set(s) of its fragments arrived", j, data.len(), dgs[j].delivered, allowed)));
                             break 'outer;
                         }
                     }
                     None => {
                         if on {
-                            result = Err(viol("C12", "reassembly", "C12.rx/reassembled-datagram-is-none-of-the-datagrams-sent", format!("the socket received {} octets from port {} that equal none of the {} datagrams sent so far (mixed or damaged reassembly)", data.len(), meta.endpoint.port, dgs.len())));
+                            result = Err(viol(pid, "reassembly", format!("{}.rx/reassembled-datagram-is-none-of-the-datagrams-sent", pid), format!("the socket received {} octets from port {} that equal none of the {} datagrams sent so far (mixed or damaged reassembly)", data.len(), meta.endpoint.port, dgs.len())));
                             break 'outer;
                         }
                     }
@@ -317,7 +370,7 @@ pub fn run(tape: &mut Tape, props: Props, thorough: bool, trace_on: bool) -> Out
         dgs[di].must = must;
         if must {
             stats.inc("reasm.must-deliver-claims");
-            if on && dgs[di].delivered == 0 {
+            if on12 && dgs[di].delivered == 0 {
                 result = Err(viol(
                     "C12",
                     "reassembly",
